@@ -10,7 +10,7 @@ sys.path.insert(0, os.path.join(ROOT, "units"))
 import rewrite as rw  # noqa: E402
 import re  # noqa: E402
 from gen import Contract, UnitFile, Tag  # noqa: E402
-from extract import ExtractError  # noqa: E402
+from extract import ExtractError, skeleton_hash  # noqa: E402
 from slicer import Slicer  # noqa: E402
 import common  # noqa: E402
 
@@ -194,6 +194,8 @@ def add_arg_index_slices(u, props):
             line0 = src.line_of(toks[arrow].start)
             u.fn_props[gname] = props
             u.safety_props[gname] = props
+            # the slice drops every condition: a failure in a restructured arm counts only if an input reproduces it
+            u.skeletons[gname] = skeleton_hash(src.text[toks[a2].start:toks[b2 - 1].end]) if b2 > a2 else "-"
             tag0 = Tag("repo", fn=gname, repo_file=EV, repo_line=line0, props=props)
             u.emit("#[verifier::exec_allows_no_decreases_clause]\npub fn %s(n: usize) -> (r: Result<(), ()>)\n{" % gname, tag0)
             for (text, ln) in sl.out:
